@@ -48,6 +48,8 @@ func (s *State) evalAssignment(right object.Object, node *ast.InfixExpression) o
 			if _, exists := s.env.Get(name); exists {
 				s.ResetCache() // rebinding a name to a function: memoized results of its callers are stale.
 			}
+		} else if s.env.BoundToFunction(name) {
+			s.ResetCache() // same when a name bound to a function gets another kind of value.
 		}
 		// Propagate possible error (constant, extension names setting).
 		// Distinguish between define and assign, define (:=) forces a new variable.
